@@ -119,7 +119,7 @@ func body(sp spec) {
 		if len(msgs) > 0 {
 			from = msgs[0].Metadata.Get("from")
 		}
-		po := hx.PubOutcome(vs.Choose(4, 0, "publisher outcome")) // ok, error, panic, error after accepting
+		po := hx.PubOutcome(vs.Choose(5, 0, "publisher outcome")) // ok, error, panic, error after accepting, error wrapping context.Canceled
 		pubOutcome[from] = po
 		return po
 	}
@@ -186,6 +186,8 @@ func body(sp spec) {
 					return hx.Outputs(m, 1), nil
 				case hx.BOut2:
 					return hx.Outputs(m, 2), nil
+				case hx.BOutEmpty:
+					return make([]*message.Message, 0, 1), nil // e.g. a filtering middleware that kept nothing
 				}
 				return nil, nil
 			}
